@@ -38,6 +38,8 @@ fn base(stats_each: bool) -> HistProp {
     gc.invalid_names = true;
     gc.max_depth = 2;
     gc.populate_pct = 10;
+    // a third of the sessions keep access dates (the option rewrites directory entries on reads and listings)
+    gc.access_date = vec![false, false, true];
     HistProp {
         id: "C05",
         level: "exploration",
